@@ -40,6 +40,9 @@ pub struct Replica {
     pub role: String,
     pub entropy: u128,
     pub steps: Vec<Step>,
+    /// deliveries executed on the replica's thread *before* its history starts, each on a tree of its own that
+    /// is thrown away: a "veteran" thread. Nothing they do may leak into the replica's own results.
+    pub warmup: Vec<Step>,
 }
 
 #[derive(Clone, Debug, PartialEq)]
@@ -159,25 +162,22 @@ impl Session {
                 self.replicas
                     .iter()
                     .map(|r| {
-                        J::obj().set("role", J::s(&r.role)).set("entropy", J::s(format!("{:032x}", r.entropy))).set(
-                            "steps",
-                            J::Arr(
-                                r.steps
-                                    .iter()
-                                    .map(|s| {
-                                        let mut j = J::obj();
-                                        match &s.input {
-                                            Input::Doc(i) => j.put("doc", J::Int(*i as i64)),
-                                            Input::Alt(i) => j.put("alt", J::Int(*i as i64)),
-                                            Input::Raw(b) => j.put("raw", bytes_j(b)),
-                                        }
-                                        j.put("plan", s.plan.to_j());
-                                        j.put("cfg", J::Int(s.cfg as i64));
-                                        j
-                                    })
-                                    .collect(),
-                            ),
-                        )
+                        let step_j = |s: &Step| {
+                            let mut j = J::obj();
+                            match &s.input {
+                                Input::Doc(i) => j.put("doc", J::Int(*i as i64)),
+                                Input::Alt(i) => j.put("alt", J::Int(*i as i64)),
+                                Input::Raw(b) => j.put("raw", bytes_j(b)),
+                            }
+                            j.put("plan", s.plan.to_j());
+                            j.put("cfg", J::Int(s.cfg as i64));
+                            j
+                        };
+                        let mut o = J::obj().set("role", J::s(&r.role)).set("entropy", J::s(format!("{:032x}", r.entropy)));
+                        if !r.warmup.is_empty() {
+                            o.put("warmup", J::Arr(r.warmup.iter().map(step_j).collect()));
+                        }
+                        o.set("steps", J::Arr(r.steps.iter().map(step_j).collect()))
                     })
                     .collect(),
             ),
@@ -201,12 +201,7 @@ impl Session {
             s.opts.push(RenderOpt::from_j(o)?);
         }
         for r in j.arr_of("replicas")? {
-            let mut rep = Replica {
-                role: r.str_of("role")?,
-                entropy: u128::from_str_radix(&r.str_of("entropy")?, 16).map_err(|e| e.to_string())?,
-                steps: vec![],
-            };
-            for st in r.arr_of("steps")? {
+            let step_of = |st: &J| -> Result<Step, String> {
                 let input = if let Some(J::Int(i)) = st.get("doc") {
                     Input::Doc(*i as usize)
                 } else if let Some(J::Int(i)) = st.get("alt") {
@@ -214,11 +209,21 @@ impl Session {
                 } else {
                     Input::Raw(j_bytes(st.get("raw").ok_or("step without input")?)?)
                 };
-                rep.steps.push(Step {
-                    input,
-                    plan: Plan::from_j(st.get("plan").ok_or("step without plan")?)?,
-                    cfg: st.int_of("cfg")? as u16,
-                });
+                Ok(Step { input, plan: Plan::from_j(st.get("plan").ok_or("step without plan")?)?, cfg: st.int_of("cfg")? as u16 })
+            };
+            let mut rep = Replica {
+                role: r.str_of("role")?,
+                entropy: u128::from_str_radix(&r.str_of("entropy")?, 16).map_err(|e| e.to_string())?,
+                steps: vec![],
+                warmup: vec![],
+            };
+            for st in r.arr_of("steps")? {
+                rep.steps.push(step_of(st)?);
+            }
+            if let Some(J::Arr(w)) = r.get("warmup") {
+                for st in w {
+                    rep.warmup.push(step_of(st)?);
+                }
             }
             s.replicas.push(rep);
         }
@@ -339,6 +344,21 @@ pub struct ReplicaOut {
 }
 
 fn run_replica_here(session: &Session, r: &Replica, want: &Want) -> Vec<StepOut> {
+    // veteran thread: earlier, unrelated work on this thread (results discarded)
+    let mut junk: Option<Element<String>> = None;
+    for st in &r.warmup {
+        let bytes = session.bytes_of(&st.input);
+        let keep = junk.clone();
+        let (d, _, _) = deliver(junk.take(), &bytes, &st.plan, st.cfg);
+        junk = match d {
+            Delivered::Ok(t) => {
+                let _ = catch_unwind(AssertUnwindSafe(|| t.to_serde_struct(&Options::quick_xml_de())));
+                Some(t)
+            }
+            _ => keep,
+        };
+    }
+    drop(junk);
     let mut tree: Option<Element<String>> = None;
     let mut outs = Vec::new();
     for st in &r.steps {
